@@ -51,6 +51,16 @@ CLAIMED["C20"] = {
     "text": "Machine-checked proof over the httparse model and the three public wrappers with the field limit as a parameter: well-formed response/request head ++ anything parses to exactly its status|method, version, all fields and |H| consumed when fields <= limit (c20_response_complete, c20_request_complete); every strict prefix is 'incomplete' (c20_*_prefix); more fields than the limit is the too-many-headers error, raised as soon as line limit+1 is complete (c20_*_limit, c20_*_limit_early); the partial response parser reports only completely present fields, as a prefix of the head's field list (c20_partial_sound, c20_partial_view) and returns Ok on every prefix within the limit (c20_partial_total). Correspondence + oracle on every prefix of generated heads for limits 0, 1, 4, 128.",
     "design_ref": "DESIGN.md section 7, C05/C20", "note": COMMON_NOTE + " httparse 1.9.5 itself is modelled (scalar semantics), not verified.", "technique": TECH}
 
+CLAIMED["C10"] = {
+    "text": "Machine-checked proof over Script.step / run_ops (the very step function the correspondence check executes): ghost facts h10, ccl, n100, scl, cdl are computed from what each operation was given and returned (never from the reason list); for EVERY history of operations (induction, no length bound) and whatever flow is held, In x (reasons) <-> fact x holds, the list is duplicate-free (hence within its capacity: no push can panic), so must_close = h10 || ccl || scl || n100 || cdl in every state, in particular Redirect and Cleanup (c10_invariant, c10_verdict, c10_verdict_observed); a reason is given iff must-close and names a condition that holds (c10_reason_iff, c10_reason_true); reasons are never removed within an exchange; the flow made by as_new_flow restarts from h10/ccl of the original request (c10_new_flow_fresh); once a close-delimited body state was entered the verdict stays must-close (c10_close_delimited_never_reused). Correspondence + oracle on the exhaustive product of the five conditions x paths (4608 flows) in both tiers.",
+    "design_ref": "DESIGN.md section 7, C10", "note": COMMON_NOTE, "technique": TECH + " (invariant by induction over operation histories; exhaustive product)"}
+CLAIMED["C11"] = {
+    "text": "Machine-checked proof over the zero-slot httparse model and the flow model, for every well-formed head h, every cut position n and every rest: with decision_point h = |status line| + |next line| (first field line, or the final CRLF of a head without fields), n < decision_point -> try_read_100 returns Ok 0 and leaves the flow unchanged (c11_undecided); n >= decision_point -> decided, same verdict for every longer window (c11_decided, c11_verdict_final for arbitrary bytes): a bare 100 is consumed exactly and proceed leads to SendBody (c11_continue*), anything else consumes nothing, clears should_send_body, records Not100Continue (must-close), proceed leads to RecvResponse with the converted call, try_response returns that very head, and no later operation ever requests the body (c11_refusal_*, c11_never_body); giving up leads to SendBody (c11_giveup); a late bare 100 is skipped exactly once (c11_late*); under the re-presentation discipline the should_send_body assertion is unreachable (c11_never_assert) and it is the only panic site (c11_assert_only); each branch re-establishes the flow invariant of C09 (c11_usable_*). Correspondence + oracle on every cut of 15 first heads x look-once/look-always x both later paths x HTTP/1.0 and 1.1.",
+    "design_ref": "DESIGN.md section 7, C11", "note": COMMON_NOTE + " A 100 that carries header fields is outside the property (modelled: refused). Offering a bare 100 to try_read_100 after a refusal of a different window (breaking the re-presentation discipline the property assumes) reaches assert!(should_send_body): c11_assert_reachable_outside_discipline; excluded misuse, DESIGN.md C12.", "technique": TECH}
+CLAIMED["C12"] = {
+    "text": "Machine-checked proof for EVERY byte string, capacity and stop flag, from every between-calls state (not only reachable ones): the chunked, length, close and no-body readers never return Panic -- the fuelled decoder loops report exhausted fuel as Panic, so this includes termination (measure 2|src| + [state <> Trailer]) -- and on Ok consumed <= offered, produced <= capacity, produced is a subsequence of the consumed prefix (equal to it for length/close), and the new state is again a between-calls state (c12_read*, lifted to any schedule: c12_schedule); the three head parsers never panic for any slot count, used <= offered, builder refusal (name > 65535 bytes) is an error (c12_parsers, c12_builder_*); try_read_100, try_response, read at Call and Flow level never panic given the state's holder and duplicate-free reasons, which they preserve (so the reason list stays within capacity: c12_reasons), try_read_100 under the re-presentation discipline never meets its assertion (c12_discipline); after any such call, Ok or Err, the following proceed does not panic (c12_then_proceed_*); whole server-facing sessions are panic-free (c12_session). Correspondence + oracle: every string over a 20-symbol protocol alphabet up to length 3 (thorough: 4) at 18 parse positions in 6 state classes, grammar-aware mutations of valid exchanges, oversize names/numbers, 129+ fields, five close conditions at once, undisciplined windows; no panic, no hang, counts bounded, subsequence.",
+    "design_ref": "DESIGN.md section 7, C12", "note": COMMON_NOTE + " After a failed read the implementation keeps the decoder state reached inside the failed call while the model returns the pre-call state; the property says nothing about results after an error except no panic, so after the first failed read observations are compared as panic/no-panic only, and the theorems hold from every non-Trailer decoder state (the only error sites, read_size and expect_crlf, leave Size resp. CrLf).", "technique": TECH + " (safety for arbitrary inputs from every invariant state; exhaustive small alphabet strings)"}
+
 NOT_YET = {}
 ALL = ["C%02d" % i for i in range(1, 21)]
 
